@@ -98,6 +98,7 @@ pub fn decode(bytes: &[u8], only_help: bool) -> Case {
     // commands
     let n_cmd = 1 + usize::from(u.chance(80));
     let mut cmds: Vec<(CmdSpec, NamedSpec, Option<NamedSpec>)> = Vec::new();
+    let mut nums: Vec<NamedSpec> = Vec::new();
     let mut branches: Vec<Node> = vec![p_branch];
     for k in 0..n_cmd {
         let name = names.cmd(&mut u);
@@ -122,6 +123,32 @@ pub fn decode(bytes: &[u8], only_help: bool) -> Case {
                 catch: false,
             });
         }
+        // a typed item of the command under a wrapper that reacts to absence only
+        let own_num = gen_named_leaf(
+            &mut u,
+            &mut names,
+            NamedKind::Arg {
+                ty: Ty::U32,
+                metavar: "NUM".into(),
+                adjacent: false,
+            },
+        );
+        own_fields.push(match u.below(3) {
+            0 => Node::Optional {
+                n: Node::Named(own_num.clone()).b(),
+                catch: false,
+            },
+            1 => Node::Fallback {
+                n: Node::Named(own_num.clone()).b(),
+                value: "num-dflt".into(),
+                shown: false,
+            },
+            _ => Node::Many {
+                n: Node::Named(own_num.clone()).b(),
+                catch: false,
+            },
+        });
+        nums.push(own_num);
         let mut level = Level::simple(Node::Seq(own_fields));
         level.info.header = Some(DocSpec::plain(format!("InsideCmd{}Marker", k)));
         let short = if u.chance(60) { names.cmd_short(&mut u) } else { None };
@@ -134,12 +161,17 @@ pub fn decode(bytes: &[u8], only_help: bool) -> Case {
             level,
         };
         let node = Node::Cmd(Box::new(c.clone()));
-        branches.push(match u.below(3) {
+        branches.push(match u.below(4) {
             0 => node,
             1 => Node::Fallback {
                 n: node.b(),
                 value: "cmd-dflt".into(),
                 shown: false,
+            },
+            2 => Node::FallbackWith {
+                n: node.b(),
+                ok: true,
+                value: "cmd-dflt-with".into(),
             },
             _ => Node::Optional {
                 n: node.b(),
@@ -234,6 +266,26 @@ pub fn decode(bytes: &[u8], only_help: bool) -> Case {
                         },
                         "command",
                     )
+                }
+                1 if u.bool() => {
+                    // the command's typed item with a value that does not convert: the run fails
+                    // (the other branch must not take the words over)
+                    let k = cmds.iter().position(|x| x.0.name == c.name).unwrap_or(0);
+                    let num = &nums[k];
+                    for o in own {
+                        argv.extend(o);
+                    }
+                    let name = match pick_alias(&mut u, num) {
+                        Alias::Short(ch) => format!("-{}", ch),
+                        Alias::Long(l) => format!("--{}", l),
+                    };
+                    if u.bool() {
+                        argv.push(format!("{}=1x", name).into_bytes());
+                    } else {
+                        argv.push(name.into_bytes());
+                        argv.push(b"1x".to_vec());
+                    }
+                    (Expect::Reject, "command+invalid-typed-value")
                 }
                 1 => {
                     let at = u.below(own.len() + 1);
